@@ -210,9 +210,12 @@ def run_scenario(sc, base, fast=True, mode='each', real_passes=None, on_test=Non
             if os.path.abspath(str(dst)).startswith(tmpd + os.sep) and (not is_cur or len(names) == 1):
                 left['k'] -= 1
                 if left['k'] == 0:
-                    with open(dst, 'wb'):
-                        pass      # created, nothing written yet
-                    raise OSError(28, 'scripted: No space left on device')
+                    en = sc.get('copy_fault_errno', 28)
+                    if en == 28:
+                        with open(dst, 'wb'):
+                            pass      # created, nothing written yet
+                        raise OSError(28, 'scripted: No space left on device')
+                    raise OSError(en, 'scripted: the copy is refused')      # 13 / 1: PermissionError before anything is created
             return orig_copyfile(src, dst, *a, **kw)
 
         shutil.copyfile = copyfile
